@@ -1,11 +1,14 @@
 #!/bin/sh
-# usage: tools/install_seeded.sh <ID>   copies /tmp/mut/<ID>/out/{patchN.diff,demoN.rs,meta.json} to /verif/seeded/<ID>/<N>/
+# usage: tools/install_seeded.sh <ID>   copies /tmp/mut/<ID>/out/{patchN.diff,demoN.rs,meta.json} to /verif/seeded/<ID>-<N>/
 ID=$1; SRC=/tmp/mut/$ID/out
 for N in 1 2 3; do
   [ -f $SRC/patch$N.diff ] || continue
-  mkdir -p /verif/seeded/$ID/$N
-  cp $SRC/patch$N.diff /verif/seeded/$ID/$N/patch.diff
-  [ -f $SRC/demo$N.rs ] && cp $SRC/demo$N.rs /verif/seeded/$ID/$N/demo.rs
-  jq --argjson i $((N-1)) '{property:.property, written_for:.property} + .changes[$i]' $SRC/meta.json > /verif/seeded/$ID/$N/meta.json 2>/dev/null || cp $SRC/meta.json /verif/seeded/$ID/$N/meta.json
+  D=/verif/seeded/$ID-$N
+  # do not overwrite an existing seeded change: use the next free number
+  K=$N; while [ -d /verif/seeded/$ID-$K ]; do K=$((K+1)); done; D=/verif/seeded/$ID-$K
+  mkdir -p $D
+  cp $SRC/patch$N.diff $D/patch.diff
+  [ -f $SRC/demo$N.rs ] && cp $SRC/demo$N.rs $D/demo.rs
+  jq --argjson i $((N-1)) '{property:.property, written_for:.property} + .changes[$i]' $SRC/meta.json > $D/meta.json 2>/dev/null || cp $SRC/meta.json $D/meta.json
+  echo $D
 done
-ls /verif/seeded/$ID
